@@ -1,4 +1,4 @@
 """Which check modules are integrated (claimed in MANIFEST.json) and which value-level modules feed C02/C10/C15.
 Modules still under construction are not listed, so a half-built module can never make a registered check alarm."""
-CLAIMED = ["C01", "C02", "C03", "C04", "C05", "C06", "C07", "C08", "C10", "C12", "C13", "C14", "C15", "C16", "C17", "C18", "C19", "C20"]
+CLAIMED = ["C01", "C02", "C03", "C04", "C05", "C06", "C07", "C08", "C09", "C10", "C11", "C12", "C13", "C14", "C15", "C16", "C17", "C18", "C19", "C20"]
 VALUE = ["c03", "c04", "c07", "c08", "c16", "c17"]
